@@ -120,3 +120,63 @@ Proof.
   - split; [discriminate|]. split; [reflexivity|discriminate].
   - split; [discriminate|]. split; [reflexivity|discriminate].
 Qed.
+
+(* the converse direction: nothing failed and the child answered exactly => the wrapper's status is
+   what Wait makes of the child's wait status (in particular the child's own exit code) *)
+Theorem wrapper_io_clean_proof : forall wr fd_child sent records needs child_lines rest t orc_f orc_c st evf evc,
+  wrapper_io_run wr fd_child sent records needs child_lines t orc_f orc_c = (st, evf, evc) ->
+  collect needs child_lines = Some rest -> (wr = B64filter -> rest = 0%nat) ->
+  any_failed evf = false -> any_failed evc = false ->
+  st = Exited (Wait (wstatus t) mod 256).
+Proof.
+  intros wr fd sent records needs lines rest t orc_f orc_c st evf evc. unfold wrapper_io_run.
+  pose proof (feeder_sound wr fd sent orc_f) as Hf.
+  destruct (feeder wr fd sent orc_f) as [[rf ef] of'] eqn:Ef. simpl in Hf. destruct Hf as (Hf1 & Hf2 & _).
+  intros H Hcol Hb64.
+  assert (sound (collector wr needs lines records orc_c) orc_c) as Hc.
+  { unfold collector. rewrite Hcol. destruct wr.
+    - apply bind_sound; [apply bs_write_all_sound|]. intros; apply bs_destroy_sound.
+    - apply bind_sound; [apply bs_write_all_sound|]. intros; apply bs_destroy_sound.
+    - rewrite (Hb64 eq_refl). apply bind_sound; [apply bs_write_all_sound|]. intros; apply bs_destroy_sound. }
+  destruct (collector wr needs lines records orc_c) as [[rc ec] oc'] eqn:Ec. simpl in Hc. destruct Hc as (Hc1 & Hc2 & _).
+  destruct rf as [uf| | |]; try congruence; destruct rc as [uc| | |]; try congruence; inversion H; subst st evf evc; clear H;
+    intros Hnf Hnc; simpl in Hf2, Hc2; try rewrite Hnf in Hf2; try rewrite Hnc in Hc2; try discriminate; reflexivity.
+Qed.
+
+(* ---- Launch *)
+Lemma launch_wait_spec fd : forall fuel orc, (length orc < fuel)%nat ->
+  match launch_wait fuel fd orc with
+  | (r, evs, _) => (r = Val tt \/ r = Exn) /\ (r = Val tt <-> launch_ok evs = true) /\ evs <> []
+  end.
+Proof.
+  induction fuel as [|f IH]; intros orc Hlt; [lia|]. cbn [launch_wait].
+  destruct (sys_shape OpRead fd 4 [] orc) as (o & orc1 & Es & Hl & Hd & Hn). rewrite Es.
+  destruct o as [n d|e].
+  - destruct (n =? 0) eqn:E; unfold launch_ok; simpl; rewrite E; repeat split; auto; try congruence; try discriminate.
+  - destruct (zmem e launch_retry_errnos) eqn:Ez.
+    + assert (orc <> []) as Hne by (intro H0; specialize (Hd H0); discriminate).
+      specialize (Hn Hne). specialize (IH orc1 ltac:(lia)).
+      destruct (launch_wait f fd orc1) as [[r2 ev2] orc2]. destruct IH as (H1 & H2 & H3).
+      split; [exact H1|]. split; [|destruct ev2; simpl; congruence].
+      rewrite H2. unfold launch_ok. simpl rev. destruct (rev ev2) as [|x l] eqn:Er.
+      * apply (f_equal (@rev event)) in Er. rewrite rev_involutive in Er. simpl in Er. congruence.
+      * simpl. reflexivity.
+    + unfold launch_ok; simpl; repeat split; auto; try congruence; try discriminate.
+Qed.
+
+Theorem launch_spec_proof : forall words fd orc after st evs,
+  launch_status words fd orc after = (st, evs) ->
+  ((words = 0%nat /\ launch_checks_command = true) \/ launch_ok evs = false -> st = Signaled SIGABRT) /\
+  (launch_ok evs = true -> st = after).
+Proof.
+  intros words fd orc after st evs. unfold launch_status, Launch.
+  destruct (launch_checks_command && (words =? 0)%nat) eqn:Ec.
+  - intros H. inversion H; subst. simpl. split; [reflexivity|]. unfold launch_ok. simpl. discriminate.
+  - pose proof (launch_wait_spec fd (S (length orc)) orc ltac:(lia)) as Hs.
+    destruct (launch_wait (S (length orc)) fd orc) as [[r ev] orc']. destruct Hs as (H1 & H2 & H3).
+    destruct H1 as [Hr|Hr]; subst r; intros H; inversion H; subst st evs; clear H.
+    + assert (launch_ok ev = true) as Hok by (apply H2; reflexivity).
+      split; [|auto].
+      intros [[Hw Hc]|Hf]; [subst words; rewrite Hc in Ec; simpl in Ec; discriminate|congruence].
+    + simpl. split; [reflexivity|]. intros Hok. apply H2 in Hok. discriminate.
+Qed.
